@@ -478,3 +478,189 @@ pub fn gen_rule(rng: &mut Rng, ing: &Ingredients, cfg: &GenCfg, depth: usize, co
   }
   RObj { keys }
 }
+
+// ---------------------------------------------------------------------------------------------
+// "witnessed" rules: built around a concrete node so that they are (mostly) TRUE of it — random
+// rule trees are almost always false (Cedar's lesson); relations, fields, stop rules and positions
+// are taken from the node's real context, then sometimes perturbed into a near miss.
+
+fn field_of_child(parent: &N, child: &N) -> Option<String> {
+  let tsn = parent.get_ts_node();
+  let mut c = tsn.walk();
+  if !c.goto_first_child() {
+    return None;
+  }
+  loop {
+    if c.node().id() == child.node_id() {
+      return c.field_name().map(|s| s.to_string());
+    }
+    if !c.goto_next_sibling() {
+      return None;
+    }
+  }
+}
+
+fn atom_for(rng: &mut Rng, lang: SupportLang, x: &N, counter: &mut usize, allow_vars: bool) -> RKey {
+  let ts = lang.get_ts_language();
+  let kind_ok = x.is_named() && x.kind() != "ERROR" && ts.id_for_node_kind(&x.kind(), true) != 0;
+  match rng.below(6) {
+    0 | 1 if kind_ok => RKey::Kind(x.kind().to_string()),
+    2 if x.is_named() && !x.range().is_empty() && x.range().len() <= 80 && !x.text().contains('$') && !x.text().contains('\n') => {
+      let cut = crate::c02::make_cut(x, rng, false);
+      *counter += 1;
+      let text = if allow_vars && rng.chance(1, 2) { cut.text } else { rename_vars(&cut.text, *counter) };
+      RKey::Pattern { text, selector: None, strictness: if rng.chance(1, 5) { Some(rng.below(5)) } else { None } }
+    }
+    3 => {
+      let (s, e) = (x.start_pos(), x.end_pos());
+      RKey::Range(s.line(), s.column(x), e.line(), e.column(x))
+    }
+    4 if x.is_named() => {
+      // position among named siblings
+      if let Some(p) = x.parent() {
+        let named: Vec<N> = p.children().filter(|c| c.is_named()).collect();
+        let idx = named.iter().position(|c| c.node_id() == x.node_id()).unwrap_or(0);
+        let rev = rng.chance(1, 3);
+        let i = if rev { named.len() - idx } else { idx + 1 };
+        let pos = match rng.below(4) {
+          0 => NthPos::Num(i),
+          1 => NthPos::Str(format!("n+{i}")),
+          2 => NthPos::Str(format!("-n+{i}")),
+          _ => NthPos::Str(if i % 2 == 0 { "2n".into() } else { "2n+1".into() }),
+        };
+        RKey::Nth { pos, reverse: rev, of: None, simple: false }
+      } else {
+        RKey::Regex(".".into())
+      }
+    }
+    _ => {
+      if kind_ok { RKey::Kind(x.kind().to_string()) } else { RKey::Regex(".".into()) }
+    }
+  }
+}
+
+pub fn gen_witnessed(rng: &mut Rng, lang: SupportLang, n: &N, depth: usize, counter: &mut usize, allow_vars: bool, utils: &[String]) -> RObj {
+  let atom = |rng: &mut Rng, x: &N, counter: &mut usize| RObj::one(atom_for(rng, lang, x, counter, allow_vars));
+  if depth == 0 {
+    return atom(rng, n, counter);
+  }
+  let sub = |rng: &mut Rng, x: &N, counter: &mut usize| gen_witnessed(rng, lang, x, depth - 1, counter, allow_vars, utils);
+  let mut keys: Vec<RKey> = vec![];
+  if rng.chance(1, 2) {
+    keys.push(atom_for(rng, lang, n, counter, allow_vars));
+  }
+  let choice = rng.below(10);
+  let k = match choice {
+    0 | 1 => {
+      // inside: an ancestor at distance 1..4
+      let anc: Vec<N> = n.ancestors().take(4).collect();
+      if anc.is_empty() {
+        RKey::Not(Box::new(RObj::one(RKey::Inside(Box::new(Rel { rule: atom(rng, n, counter), stop: Stop::End, field: None })))))
+      } else {
+        let d = rng.below(anc.len());
+        let a = anc[d].clone();
+        let path_child = if d == 0 { n.clone() } else { anc[d - 1].clone() };
+        let mut field = if rng.chance(2, 3) { field_of_child(&a, &path_child) } else { None };
+        let mut stop = if d == 0 && rng.chance(1, 2) {
+          Stop::Neighbor
+        } else if rng.chance(1, 2) {
+          Stop::End
+        } else {
+          // stop rule true at the target ancestor (inclusive) or at one farther up
+          let far = anc[d + rng.below(anc.len() - d)].clone();
+          Stop::Rule(atom(rng, &far, counter))
+        };
+        // near misses
+        if rng.chance(1, 8) { stop = Stop::Neighbor; }
+        if rng.chance(1, 10) { field = field_of_child(&n.parent().unwrap(), n); }
+        RKey::Inside(Box::new(Rel { rule: sub(rng, &a, counter), stop, field }))
+      }
+    }
+    2 | 3 => {
+      // has: a descendant at depth 1..3 along a random path
+      let mut path: Vec<N> = vec![];
+      let mut cur = n.clone();
+      for _ in 0..(1 + rng.below(3)) {
+        let cs: Vec<N> = cur.children().collect();
+        if cs.is_empty() { break; }
+        cur = rng.pick(&cs).clone();
+        path.push(cur.clone());
+      }
+      if path.is_empty() {
+        RKey::Not(Box::new(RObj::one(RKey::Has(Box::new(Rel { rule: atom(rng, n, counter), stop: Stop::End, field: None })))))
+      } else {
+        let d = path.last().unwrap().clone();
+        let mut field = if rng.chance(2, 3) { field_of_child(n, &path[0]) } else { None };
+        let mut stop = if path.len() == 1 && rng.chance(1, 2) {
+          Stop::Neighbor
+        } else if rng.chance(1, 2) {
+          Stop::End
+        } else {
+          let at = rng.pick(&path).clone();
+          Stop::Rule(atom(rng, &at, counter))
+        };
+        if rng.chance(1, 8) { stop = Stop::Neighbor; }
+        if rng.chance(1, 10) { field = d.parent().and_then(|p| field_of_child(&p, &d)); }
+        RKey::Has(Box::new(Rel { rule: sub(rng, &d, counter), stop, field }))
+      }
+    }
+    4 | 5 => {
+      let fwd = choice == 4;
+      let sibs: Vec<N> = if fwd { n.next_all().collect() } else { n.prev_all().collect() };
+      if sibs.is_empty() {
+        let rel = Box::new(Rel { rule: atom(rng, n, counter), stop: Stop::End, field: None });
+        RKey::Not(Box::new(RObj::one(if fwd { RKey::Precedes(rel) } else { RKey::Follows(rel) })))
+      } else {
+        let i = rng.below(sibs.len().min(5));
+        let mut stop = if i == 0 && rng.chance(1, 2) {
+          Stop::Neighbor
+        } else if rng.chance(1, 2) {
+          Stop::End
+        } else {
+          let at = sibs[i + rng.below(sibs.len() - i)].clone();
+          Stop::Rule(atom(rng, &at, counter))
+        };
+        if rng.chance(1, 8) { stop = Stop::Neighbor; }
+        let rel = Box::new(Rel { rule: sub(rng, &sibs[i], counter), stop, field: None });
+        if fwd { RKey::Precedes(rel) } else { RKey::Follows(rel) }
+      }
+    }
+    6 => RKey::All((0..1 + rng.below(3)).map(|_| sub(rng, n, counter)).collect()),
+    7 => {
+      // any: a (probably) false branch before the true one
+      let mut v = vec![];
+      if let Some(p) = n.parent() {
+        if rng.chance(2, 3) { v.push(sub(rng, &p, counter)); }
+      }
+      v.push(sub(rng, n, counter));
+      RKey::Any(v)
+    }
+    8 => {
+      // not of something (probably) false of n: a rule witnessed by its parent or a child
+      let other = n.parent().or_else(|| n.child(0)).unwrap_or_else(|| n.clone());
+      RKey::Not(Box::new(sub(rng, &other, counter)))
+    }
+    _ => {
+      if !utils.is_empty() && rng.chance(1, 2) {
+        RKey::Matches(rng.pick(utils).clone())
+      } else {
+        // nthChild with ofRule witnessed by the node
+        if let Some(p) = n.parent() {
+          if n.is_named() {
+            let of = atom(rng, n, counter);
+            let _ = p;
+            RKey::Nth { pos: NthPos::Str(rng.pick(&["n", "n+1", "2n+1", "-n+3", "1", "2"]).to_string()), reverse: rng.chance(1, 3), of: Some(Box::new(of)), simple: false }
+          } else {
+            atom_for(rng, lang, n, counter, allow_vars)
+          }
+        } else {
+          atom_for(rng, lang, n, counter, allow_vars)
+        }
+      }
+    }
+  };
+  if !keys.iter().any(|x: &RKey| key_id(x) == key_id(&k)) {
+    keys.push(k);
+  }
+  RObj { keys }
+}
